@@ -27,6 +27,9 @@ def main():
             items = idx
         elif mode == "ext":
             items = [{"e": i} for i in idx]
+        elif mode == "types":
+            items = [{"y": i} for i in idx if i < len(universe.types_battery())]
+            idx = idx[:len(items)]
         elif mode == "small":
             items = [{"s": i} for i in idx if i < len(universe.small_population_battery())]
             idx = idx[:len(items)]
